@@ -263,3 +263,63 @@ def write_v3(fn, T=10, F=8, ants=('m000', 'm001'), t0=1500000000.0, dt=2.0, acts
         g.create_dataset('drive_mode', data=_cat(hist['cat'][a]))
     f.close()
     return st, cps, ts
+
+
+def write_v2_windows(fn, retunes, off=0.0, T=10, F=8, ants=('m000', 'm001'), t0=1300000000.0, dt=2.0, grid4=None, old=False,
+                     **kw):
+    """An MVF v2 file whose RFE centre frequency is RETUNED during the observation (several spectral windows).
+
+    retunes: [(dump, centre_hz), ...] in time order, first dump 0: the LO is retuned just after the start of that dump
+    (dt / 32 into it, as seen by a reader that is given time_offset=off), so that dump and all later ones up to the
+    next retune are recorded with that centre frequency.  Everything else as write_v2 (which writes the file; the RFE
+    sensors are then replaced).  old: version 2.0, the centre frequency is the RFE7 LO1 sensor minus 4200 MHz and
+    RFE/center-frequency-hz holds a decoy.  Returns (stored, products, ts, dump_centre) with dump_centre[i] the centre
+    frequency dump i was recorded with."""
+    assert retunes and retunes[0][0] == 0 and all(a[0] < b[0] for a, b in zip(retunes, retunes[1:]))
+    st, cps, ts = write_v2(fn, T=T, F=F, ants=ants, t0=t0, dt=dt, grid4=grid4, old=old, centre=retunes[0][1], **kw)
+    starts = times_of(t0, dt, grid4, T)
+    events = [(t0 - 5.0, retunes[0][1])] + [(starts[d] + off + dt / 32.0, c) for d, c in retunes[1:]]
+    with h5py.File(fn, 'r+') as f:
+        rfe = f['MetaData/Sensors/RFE']
+        for name in list(rfe):
+            del rfe[name]
+        if old:
+            sens(rfe, 'center-frequency-hz', [(t, 1500e6 + 1e6 * i) for i, (t, c) in enumerate(events)], np.float64)
+            sens(rfe, 'rfe7.lo1.frequency', [(t, c + 4200e6) for t, c in events], np.float64)
+        else:
+            sens(rfe, 'center-frequency-hz', events, np.float64)
+    dump_centre = np.zeros(T)
+    for d, c in retunes:
+        dump_centre[d:] = c
+    return st, cps, ts, dump_centre
+
+
+def relabel_h5(fn, fmt, st):
+    """Replace the stored samples of an MVF v2 / v3 file written by write_v2 / write_v3 (without duplicate final dump) by
+    the given labelled arrays (a slice along time of labelled(total rows, F, B)): files that are opened TOGETHER
+    (katdal.open of a list) then carry injective labels across the whole concatenated time axis."""
+    with h5py.File(fn, 'r+') as f:
+        def put(path, arr):
+            assert f[path].shape == arr.shape, (path, f[path].shape, arr.shape)
+            f[path][...] = arr
+        put('Data/correlator_data', np.stack([st['vis'].real, st['vis'].imag], axis=-1).astype(np.float32))
+        if fmt == 'v2':
+            put('Markup/flags', st['flags'])
+            put('Markup/weights', st['w_v2'])
+        else:
+            put('Data/flags', st['flags'])
+            put('Data/weights', st['w_lo'])
+            put('Data/weights_channel', st['w_hi'])
+
+
+def set_bls_ordering(fn, fmt, cps):
+    """Rewrite the product ordering of an MVF v2 / v3 file (same antennas, another ordering = another subarray)."""
+    with h5py.File(fn, 'r+') as f:
+        g = f['MetaData/Configuration/Correlator'] if fmt == 'v2' else f['TelescopeModel/cbf']
+        assert len(g.attrs['bls_ordering']) == len(cps)
+        g.attrs['bls_ordering'] = np.array(cps, dtype='S')
+
+
+def slice_labelled(st, a, b):
+    """Rows a:b of every labelled array."""
+    return dict((k, v[a:b]) for k, v in st.items())
